@@ -1196,6 +1196,17 @@ func (w *world) pickReturned(pp *pendingPick, out pickOut, keyed, refErr bool, R
 				if len(p.snap) >= 2 {
 					w.labels["least-loaded-of-several"]++
 				}
+			case w.alive() < w.cfg.Max && w.liveRoom():
+				// the picker (an old one) finds its own channels saturated, but a READY channel of the pool has room: no
+				// channel is added ("grows only when saturated": every READY channel at or above the watermark), the call is
+				// placed on the least busy channel the picker knows
+				if len(w.cc.created) > 0 {
+					w.fail("C03", "A.pick.6e.grow", "%s: a channel was added by a call through an old picker although a READY channel of the pool is below the watermark (%s)", what, w.describe())
+				}
+				if err != nil || !inSnap(placed) || w.slots[placed].inflight != mn {
+					w.fail(loadProp, "A.pick.6e", "%s: old picker saturated, pool has room: placed=%d err=%v snapshot=%v (%s)", what, placed, err, p.snap, w.describe())
+				}
+				w.labels["old-picker-saturated-while-the-pool-has-room"]++
 			case w.alive() < w.cfg.Max:
 				if err != balancer.ErrNoSubConnAvailable {
 					w.fail("C03", "A.pick.6b", "%s: saturated below maxSize: placed=%d err=%v (want: told to wait)", what, placed, err)
@@ -1259,6 +1270,16 @@ func (w *world) pickReturned(pp *pendingPick, out pickOut, keyed, refErr bool, R
 }
 
 func (w *world) anySwapOn(i int) bool { return w.slots[i].swaps > 0 }
+
+// liveRoom: some READY channel of the pool (whether the picker in use knows it or not) is below the stream watermark.
+func (w *world) liveRoom() bool {
+	for i, s := range w.slots {
+		if s.alive && w.ready(i) && s.inflight < w.cfg.WM {
+			return true
+		}
+	}
+	return false
+}
 
 // rrReturned applies Appendix A' to a returned round-robin BIND pick.
 func (w *world) rrReturned(pp *pendingPick, placed int, err error) {
